@@ -250,6 +250,20 @@ Definition invb (fix_ts0 : bool) (s : state) : bool :=
   && forallb (fun e => negb (is_open (snd e) && h_transfer (snd e)) || live_asset (params s) (first_denom (snd e))) (htlcs s)
   && forallb (fun e => supply_ok (params s) (open_amounts 1 s) (open_amounts 2 s) (snd e)) (supplies s).
 
+(** the two parameter-dependent clauses of [invb]: they hold as long as the asset parameters are not
+    changed (Htlc/Proofs.v, [Inv]), and a MsgUpdateParams can break each of them (known finding, clause 7) *)
+Definition params_cover (s : state) : bool :=
+  forallb (fun e => negb (is_open (snd e) && h_transfer (snd e)) || live_asset (params s) (first_denom (snd e))) (htlcs s)
+  && forallb (fun e => supply_ok (params s) (open_amounts 1 s) (open_amounts 2 s) (snd e)) (supplies s).
+Definition invb_core (s : state) : bool :=
+  sortedb lt1 (htlcs s) && forallb key_ok_h (htlcs s)
+  && sortedb lt1 (supplies s) && forallb key_ok_s (supplies s)
+  && validate_params (params s)
+  && forallb (fun e => validate_htlc true (snd e)) (htlcs s)
+  && forallb (fun e => validate_supply (snd e)) (supplies s).
+Lemma invb_split fx s : invb fx s = invb_core s && params_cover s.
+Proof. unfold invb, invb_core, params_cover. rewrite !andb_assoc. reflexivity. Qed.
+
 (** ** Correspondence and the C12 predicate on the implementation's observations *)
 Record run := mkRun {
   r_sA : state; r_gA : genesis; r_val : bool; r_imp : Z; r_sB : option state; r_gB : option genesis
@@ -273,10 +287,14 @@ Definition corr_run (fx : bool) (r : run) : bool :=
 
 (** clause codes: 1 export does not validate; 2 import panics; 3 second export differs;
     4 an open contract / supply / parameter reads differently on B; 5 B's expiration queue is not
-    the set of open contracts under their expiration heights *)
+    the set of open contracts under their expiration heights; 7 import panics and the asset
+    parameters of A do not cover A's stored supplies / open transfers (only possible after a
+    parameter change: an asset dropped or deactivated, a limit cut below the usage) — reported
+    before 2, so that 2 stands for every OTHER import panic *)
 Definition prop_run (r : run) : Z :=
   first_code
     [ (1, r_val r);
+      (7, (r_imp r =? 0) || params_cover (r_sA r));
       (2, r_imp r =? 0);
       (3, match r_gB r with Some g => genesis_eq_mod_prev (r_gA r) g | None => true end);
       (4, match r_sB r with Some b => eqb (queries b) (queries (r_sA r)) | None => true end);
@@ -296,12 +314,13 @@ Fixpoint check_runs (fx : bool) (rs : list run) (i : Z) (corr prop code : Z) : Z
 Definition fixed : bool := true.
 
 Definition check_htlc (c : case) : Z * Z * Z :=
-  (* the state of A satisfies the reachability invariant, and the state after the Go
+  (* the state of A satisfies the parameter-independent part of the reachability invariant (the
+     parameter-dependent part is clause 7 when it matters), and the state after the Go
      PrepForZeroHeightGenesis is the model's [prep] of the state before *)
   let pre_ok :=
     match c_runs c with
     | r0 :: rest =>
-        invb fixed (r_sA r0)
+        invb_core (r_sA r0)
         && match rest with r1 :: _ => eqb (r_sA r1) (prep (c_height c) (r_sA r0)) | [] => true end
     | [] => true
     end in
